@@ -72,9 +72,16 @@ def gen(ctx, kind, segs, maxsegs):
                 label="cases: %s" % kind)
     if not r.cases:
         raise vlib.Inconclusive("no %s cases generated" % kind)
-    for c in r.cases:
-        c["case"]["name"] = [s.replace("\\\\", "\\") for s in c["case"].get("name", [])] if kind == "path" else c["case"].get("name")
-    return r.cases
+    def norm(x):
+        # the backslash of the segment class a\b reaches here doubled (configuration-file escaping): one backslash is meant
+        if isinstance(x, str):
+            return x.replace("\\\\", "\\")
+        if isinstance(x, list):
+            return [norm(y) for y in x]
+        if isinstance(x, dict):
+            return {k: norm(v) for k, v in x.items()}
+        return x
+    return [norm(c) for c in r.cases] if kind == "path" else r.cases
 
 
 def replay(ctx, cases, label):
